@@ -8,6 +8,7 @@ import (
 	"errors"
 	"fmt"
 	"io"
+	"os"
 	"sort"
 	"testing"
 	"time"
@@ -16,11 +17,11 @@ import (
 )
 
 type vsaved struct {
-	key, val     int
-	weight, pw   int64
-	expireWall   int64 // 0 = none
-	freq         int
-	region       int // 2 window, 3 probation, 4 protected
+	key, val   int
+	weight, pw int64
+	expireWall int64 // 0 = none
+	freq       int
+	region     int // 2 window, 3 probation, 4 protected
 }
 
 // decode a (possibly damaged) stream into the model's block operations with the real gob decoder
@@ -164,7 +165,10 @@ func TestVerifPersist(t *testing.T) {
 	tr := vopen(t, "persist")
 	defer tr.close()
 	r := &vrng{s: vseed()*179424673 + 59}
-	nstreams := vscale(6, 60)
+	nstreams := vscale(6, 40)
+	if os.Getenv("VERIF_PERSIST") == "restore-only" {
+		nstreams = vscale(40, 400)
+	}
 	for c := 0; c < nstreams; c++ {
 		size := int64(20 + r.intn(120))
 		shrunk := c%6 == 2 // a cache that held many entries, shrank to a hot set that was read often, and is saved then
@@ -262,6 +266,10 @@ func TestVerifPersist(t *testing.T) {
 		vars = append(vars, variant{"smaller", clean, version, 1 + int64(r.intn(int(size))), int64(r.next() % (1 << 30)), false})
 		vars = append(vars, variant{"wrong-version", clean, version + 1, size, 0, false})
 		ntrunc := vscale(40, 400)
+		light := os.Getenv("VERIF_PERSIST") == "restore-only" // C04 reads only the restored-entry ticks
+		if light {
+			ntrunc = 0
+		}
 		for i := 0; i < ntrunc; i++ {
 			off := r.intn(len(clean))
 			if i < 8 {
@@ -277,7 +285,10 @@ func TestVerifPersist(t *testing.T) {
 				}
 			}
 		}
-		ndam := vscale(250, 3000)
+		ndam := vscale(250, 2000)
+		if light {
+			ndam = 0
+		}
 		for i := 0; i < ndam; i++ {
 			d := append([]byte(nil), clean...)
 			pos := r.intn(len(d))
@@ -413,6 +424,47 @@ func TestVerifPersist(t *testing.T) {
 						}
 					}
 				}
+			}
+			if (vr.name == "clean" || vr.name == "clean-later") && code == 0 {
+				// C04 for restored entries: play maintenance ticks one finest-wheel tick after the deadlines of
+				// up to 10 restored entries (earliest first); after each tick nothing whose deadline lies in an
+				// earlier tick may still be resident
+				var deadlines []int64
+				dst.RangeEntry(func(e *Entry[int, int]) {
+					if x := e.expire.Load(); x != 0 {
+						deadlines = append(deadlines, x)
+					}
+				})
+				sort.Slice(deadlines, func(i, j int) bool { return deadlines[i] < deadlines[j] })
+				var pick []int64
+				for i := 0; i < len(deadlines) && len(pick) < 10; i++ {
+					if i < 3 || r.chance(30) {
+						pick = append(pick, deadlines[i])
+					}
+				}
+				ticks, reclaimed := 0, 0
+				for _, d := range pick {
+					now := d + (1 << 30)
+					if start+now < wall {
+						continue
+					}
+					vsetNow(start + now)
+					before := 0
+					dst.RangeEntry(func(e *Entry[int, int]) { before++ })
+					vtick(dst)
+					ticks++
+					after := 0
+					stuck := false
+					dst.RangeEntry(func(e *Entry[int, int]) {
+						after++
+						if x := e.expire.Load(); x != 0 && x>>30 < now>>30 && !stuck {
+							stuck = true
+							tr.viol(fmt.Sprintf("C04: restored key %d with deadline %d (tick %d) still resident after the maintenance tick at %d (tick %d); saving cache had been up %d ns, loaded %d ns after the save", e.key, x, x>>30, now, now>>30, uptime, vr.elapsed))
+						}
+					})
+					reclaimed += before - after
+				}
+				tr.op("restored-ticks", ss("96", i64(int64(ticks)), i64(int64(reclaimed))), ss("-9"))
 			}
 			dst.Close()
 		}
